@@ -1,4 +1,5 @@
 import LcModel.Prove.LemmasC10
+import LcModel.Mmr.NoOverflow
 /-!
 # C10 — no light-client handler aborts on peer-supplied input
 
@@ -249,5 +250,28 @@ theorem witness_max_block_number :
     (onProof s 1 ⟨last, [hd (U64_MAX - 2) 200, hd (U64_MAX - 1) 300], false, true⟩ 5 0 [] 0 []).map
       (·.outcome) = .ok (.ban 439) := by
   rfl
+
+/-! ## `verify_mmr_proof` (called by SendLastStateProof, SendBlocksProof, SendTransactionsProof) -/
+
+/-- **the MMR library is never driven into an overflow.**  `MergeHeaderDigest::merge` adds two
+total difficulties with an aborting `+` and computes `end_number + 1` on `u64`; all of these
+numbers are the peer's.  For every last header, proof and header list, `verify_mmr_proof`
+(with the checked sums and the end-number bound of repair c68a262) returns or rejects without
+reaching either abort - the difficulty of every digest the library ever builds is bounded by the
+sum the wrapper has checked.  (Site 903, `pos - sibling_offset`, is not covered: its absence
+needs the theory of MMR positions; the position arithmetic is modelled on unbounded naturals and
+exercised by the differential `lcverif MMR` and the byte-level fuzzing.) -/
+theorem verify_mmr_proof_no_merge_abort (valid : Bool) (lastNumber : Nat) (root : Mmr.Digest)
+    (proof : List Mmr.Digest) (headers : List Mmr.Hdr) :
+    Mmr.verifyMmrProof valid lastNumber root proof headers ≠ .error (.panic (.overflow 901)) ∧
+    Mmr.verifyMmrProof valid lastNumber root proof headers ≠ .error (.panic (.overflow 902)) :=
+  Mmr.verifyMmrProof_no_merge_abort valid lastNumber root proof headers
+
+/-- the bound is needed: two digests whose difficulties do not fit together abort `merge` -/
+theorem merge_aborts_without_the_bound :
+    Mmr.merge { (default : Mmr.Digest) with td := U256_MAX } { (default : Mmr.Digest) with td := 1 }
+      = .error (.panic (.overflow 901)) := by
+  rfl
+
 
 end C10
